@@ -335,6 +335,31 @@ struct T16 {
       }
       case K_MUL_ASSIGN: {
         allow(c, 0, N, false);
+        // partially overlapping operands: the right operand is a view that starts 1..6 scalars before
+        // or after the viewed element (it reads into the neighbouring gap). A value object would read
+        // both operands completely before storing anything; the viewed element must end up the same.
+        if (sr == r && k.src_kind != 0 && (k.idx & 3) == 3) {
+          const int span = N - 1 < 6 ? N - 1 : 6;
+          if (span < 1) {
+            c.applicable = 0;
+            break;
+          }
+          int shift = 1 + ((k.idx >> 3) % span);
+          if (k.idx & 4) shift = -shift;
+          const G res = value_at(mi(c, r)) * value_at(mi(c, r) + shift);
+          store(mi(c, r), res);
+          const S* sp = ar(c, r) + shift;
+          with_mut(c, [&](auto& m) {
+            if (k.src_kind == 1) {
+              smooth::Map<G> s(const_cast<S*>(sp));
+              m *= s;
+            } else {
+              smooth::Map<const G> s(sp);
+              m *= s;
+            }
+          });
+          break;
+        }
         const G res = value_at(mi(c, r)) * value_at(mi(c, sr));
         store(mi(c, r), res);
         with_mut(c, [&](auto& m) { with_src(c, [&](const auto& s) { m *= s; }); });
